@@ -86,7 +86,7 @@ def evaluate(plan, ctx):
     return Result(nt, ev)
 
 
-SUBCHECKS = [SubCheck("argmax", strategy, evaluate, quick=8000, thorough=150000)]
+SUBCHECKS = [SubCheck("argmax", strategy, evaluate, quick=12000, thorough=150000)]
 KNOWN = {}
 
 MANIFEST = {
